@@ -6,3 +6,5 @@ import MiniconfVerif.Props.C04
 #print axioms MiniconfVerif.C04.any_key_any_target
 #print axioms MiniconfVerif.C04.index_form_is_position
 #print axioms MiniconfVerif.C04.packed_form_resolves
+#print axioms MiniconfVerif.C04.path_text_roundtrip
+#print axioms MiniconfVerif.C04.jsonpath_text_roundtrip
